@@ -1317,7 +1317,17 @@ def _ser_object(self, t: dict, v):
         if v[0] not in ("tdict", "dict"):
             raise Mismatch
         # a plain dict served by a TypedDict alternative: only its string keys can be properties
-        vals = v[1] if v[0] == "tdict" else {kc[1]: vc for kc, vc in v[1] if kc[0] == "str"}
+        # (members of a str-mixin Enum are strings)
+        if v[0] == "tdict":
+            vals = v[1]
+        else:
+            vals = {}
+            for kc, vc in v[1]:
+                if kc[0] == "str":
+                    vals[kc[1]] = vc
+                elif kc[0] == "enum" and _enum_base(prog, kc[1]) == "str":
+                    e_ = next(e for e in prog["enums"] if e["name"] == kc[1])
+                    vals[dict((m_, x) for m_, x in e_["members"])[kc[2]]] = vc
     else:
         if v[0] != "obj" or v[1] != cd["name"]:
             raise Mismatch
